@@ -24,7 +24,7 @@ NOT_APPLICABLE = {
     'C31': "frame condition over the entire framework along API-call histories; per-function frames are proved where they live (C12, C33)",
     'C34': "derivatives come from jax AD / generated code; nothing to put under contract",
 }
-for _p in ['C02','C03','C04','C05','C07','C08','C11','C12','C15','C16','C21','C23','C25','C26','C29','C30','C32']:
+for _p in ['C02','C03','C04','C05','C07','C08','C11','C12','C15','C16','C21','C23','C25','C26','C29','C32']:
     NOT_APPLICABLE.setdefault(_p, NA_DEFAULT)
 
 CLAIMED = {
@@ -68,4 +68,9 @@ CLAIMED = {
         design_ref="DESIGN.md section 3 C06",
         note="Trusted: pyvc, z3 (QF_NRA), reals for floats; unit name dictionaries are opaque bookkeeping. Assumed: _find_unit returns the unit a string denotes (exercised exhaustively on the library in the bounded tier); the numbers in unit_library.ini. Not covered: fractional powers, has_val_mismatch.",
         technique="deductive verification (pyvc -> z3) of the unit algebra + lemmas via modular harness; bounded exhaustive native tier for the parser/library"),
+    'C30': dict(
+        text="Proof, with complex values modelled as dual numbers re + eps*im (first order in the complex step), that cs_safe.abs returns |x| on reals and, on complex arrays, real part |re| with eps-part sign(re)*dx (|dx| at re == 0, the code's documented one-sided choice); cs_safe.norm returns sqrt(sum re^2) with eps-part sum(re*dx)/norm; cs_safe.arctan2 returns atan2(re y, re x) with eps-part (x dy - y dx)/(x^2+y^2). For the jax smooth helpers (act_tanh, smooth_max, smooth_min, smooth_abs, smooth_round) the proof covers the identities that follow from tanh being odd, monotone and inside (-1,1): range/bracketing, midpoint at the switch, smooth_max+smooth_min = x+y, smooth_abs even and between 0 and |x|.",
+        design_ref="DESIGN.md section 3 C30",
+        note="Trusted: pyvc, z3, dual-number reading of complex step (A3), the derivative table for sqrt and the stated facts about tanh/atan2 (uninterpreted functions with true axioms: pyvc/trans.py); NumPy-2 complex sign modelled as in pyvc/builtins.py. Not covered: derivatives of the jax helpers (obtained by jax AD), exact agreement of smooth helpers with non-smooth NumPy functions (they are approximations by design).",
+        technique="deductive verification: dual-number symbolic execution of real source -> VCs -> z3 (QF_NRA + UF); canaries + native complex-step sampling (h=1e-40)"),
 }
